@@ -238,6 +238,12 @@ def histories(tier: str):
         for mid in ("set_attributes", "remove_attributes"):
             for e2 in ("absolute", "round_floats", "expand_shorthand"):
                 out.append(((e1, ed[e1][1], "inplace"), ("toetree", (), "query"), (mid, ed[mid][1], "inplace"), (e2, ed[e2][1], "inplace")))
+    # an operation that loads the shapes and drops them again without writing them back (nothing to flush, so whatever the flush
+    # would have reset stays as it is), then an ancestor's inheritable attribute is edited, then the shapes are loaded again
+    for e1 in ("remove_unpainted_shapes", "simplify", "topicosvg", "clip_to_viewbox", "remove_empty_subpaths"):
+        for mid in ("set_attributes", "remove_attributes"):
+            for e2 in (("absolute", ed["absolute"][1], "inplace"), ("round_floats", ed["round_floats"][1], "inplace"), ("shapes", (), "query"), ("expand_shorthand", (), "inplace")):
+                out.append(((e1, ed[e1][1], "inplace"), (mid, ed[mid][1], "inplace"), e2))
     # query, then an in-place edit, then something that depends on what the query may have memoised
     for qn in ("shapes", "view_box", "bounding_box", "tolerance"):
         for en in (CACHE_EDITORS if tier == "thorough" else ["shapes_to_paths", "expand_shorthand", "absolute", "set_attributes", "apply_style_attributes"]):
